@@ -53,6 +53,7 @@ type Result struct {
 	Execs    []string // EXEC lines (descendant processes), with --log-exec
 	Seq      []string // MARK and EXEC lines in the order they were logged
 	Killed   bool
+	Failed   bool // the chosen system call was made to fail (--fail-at)
 	Torn     string
 	ExitCode int
 	Acks     []string // lines the worker wrote to fd 3
@@ -66,6 +67,8 @@ type Opts struct {
 	LogExec    bool
 	KillAt     int     // 0 = none
 	Tear       float64 // >0 with KillAt: tear the write
+	FailAt     int     // >0: system call FailAt returns -Errno instead of being executed
+	Errno      int
 	Env        []string
 	Dir        string
 	Timeout    time.Duration
@@ -106,6 +109,8 @@ func Run(o Opts, scratch string, cmd ...string) (*Result, error) {
 		if o.Tear > 0 {
 			args = append(args, "--tear", strconv.FormatFloat(o.Tear, 'f', 4, 64))
 		}
+	} else if o.FailAt > 0 {
+		args = append(args, "--fail-at", strconv.Itoa(o.FailAt), "--errno", strconv.Itoa(o.Errno))
 	} else {
 		args = append(args, "--count")
 	}
@@ -171,6 +176,8 @@ func Run(o Opts, scratch string, cmd ...string) (*Result, error) {
 			res.Killed = true
 		case strings.HasPrefix(l, "TEAR"):
 			res.Torn = l
+		case strings.HasPrefix(l, "FAIL "):
+			res.Failed = true
 		case strings.HasPrefix(l, "EXEC "):
 			res.Execs = append(res.Execs, l[5:])
 			res.Seq = append(res.Seq, l)
